@@ -117,6 +117,17 @@ theorem paused_tick (inv : Bool) (cfg : RsCfg) (sc : Script) (st : RsState) (now
   · unfold rsRun; simp [hp, (detPhase_dets cfg sc cfg.groups now ctr none).2]
   · unfold rsRun; simp [hp]
 
+/-- "Meanwhile the ruleset's ... preruns keep executing every tick": a tick starts with the preruns of every ruleset - of its
+detectors and of its actions - whatever state the rulesets are in, so in particular for a ruleset inside its post-action pause
+(`paused_tick` is the matching statement for its detectors); the prerun of each of its actions is among them. -/
+theorem preruns_during_pause (inv : Bool) (w : World) (ti : TickIn) (p : RsCfg × RsState) (hp : p ∈ w.rs) :
+    (∃ rest, (tick inv w ti).2 = w.rs.flatMap (fun q => preruns q.1) ++ rest ∧ ∀ e ∈ rest, ∀ i, e ≠ Ev.prerun i) ∧
+    (∀ a ∈ p.1.actions, Ev.prerun a ∈ w.rs.flatMap (fun q => preruns q.1)) ∧
+    (∀ d ∈ p.1.groups.flatMap (·.dets), Ev.prerun d ∈ w.rs.flatMap (fun q => preruns q.1)) := by
+  refine ⟨C02.all_preruns_run inv w ti, fun a ha => ?_, fun d hd => ?_⟩
+  · exact List.mem_flatMap.2 ⟨p, hp, by simp [preruns, ha]⟩
+  · exact List.mem_flatMap.2 ⟨p, hp, by simp only [preruns, List.mem_append, List.mem_map]; exact Or.inl ⟨d, hd, rfl⟩⟩
+
 /-! ### the unrepaired engine violates the property (the defect repaired by the `fix:` commit)
 
 Ruleset delay 2 s; the only action returns ASYNC_PAUSED at t = 1000 s, then - on a tick where no
